@@ -327,6 +327,79 @@ func TestC17(t *testing.T) {
 		}
 		x.Outcome(fmt.Sprintf("%s/%d", source, n))
 	}})
+	// several-lists (round 9): the three domain lists of one command line / configuration file are independent of each
+	// other: the same expression may be an include in one list and an exclude in another (or in the same one); every
+	// item arrives in its own list with its own polarity, whatever was parsed before it.
+	exprs := []string{`^a\.test$`, `b\.test$`}
+	items := []string{exprs[0], "-" + exprs[0], exprs[1], "-" + exprs[1]}
+	s.Add(explore.Scenario{Name: "several-lists", Run: func(x *explore.X) {
+		pick := func(name string) []string {
+			n := x.ChooseFree(name+"-rules", 3) // 0..2
+			var l []string
+			for i := 0; i < n; i++ {
+				l = append(l, items[x.ChooseFree(fmt.Sprintf("%s-rule%d", name, i), len(items))])
+			}
+			return l
+		}
+		lists := map[string][]string{"deny-domains": pick("deny"), "direct-domains": pick("direct"), "mitm-domains": pick("mitm")}
+		source := []string{"flags", "yaml-config-file"}[x.ChooseFree("source", 2)]
+		order := [][]string{{"deny-domains", "direct-domains", "mitm-domains"}, {"mitm-domains", "direct-domains", "deny-domains"}}[x.ChooseFree("order-on-the-command-line", 2)]
+		got := map[string]*[]ruleset.RegexpListItem{"deny-domains": {}, "direct-domains": {}, "mitm-domains": {}}
+		cmd := &cobra.Command{Use: "t", RunE: func(*cobra.Command, []string) error { return nil }}
+		bind.DenyDomains(cmd.Flags(), got["deny-domains"])
+		bind.DirectDomains(cmd.Flags(), got["direct-domains"])
+		bind.MITMDomains(cmd.Flags(), got["mitm-domains"])
+		cmd.Flags().String("config-file", "", "")
+		var args []string
+		if source == "flags" {
+			for _, name := range order {
+				for _, r := range lists[name] {
+					args = append(args, "--"+name, `"`+r+`"`)
+				}
+			}
+		} else {
+			dir, err := os.MkdirTemp("", "c17cfg")
+			if err != nil {
+				x.Failf("harness/config-file", "%v", err)
+				return
+			}
+			defer os.RemoveAll(dir)
+			f := filepath.Join(dir, "config.yaml")
+			var sb strings.Builder
+			for _, name := range order {
+				if len(lists[name]) == 0 {
+					continue
+				}
+				sb.WriteString(name + ":\n")
+				for _, r := range lists[name] {
+					sb.WriteString("  - '" + r + "'\n")
+				}
+			}
+			if err := os.WriteFile(f, []byte(sb.String()), 0o600); err != nil {
+				x.Failf("harness/config-file", "%v", err)
+				return
+			}
+			args = []string{"--config-file", f}
+		}
+		cmd.SetArgs(args)
+		cmd.PreRunE = func(c *cobra.Command, _ []string) error { return cobrautil.BindAll(c, "VERIFTEST", "config-file") }
+		cmd.SilenceErrors, cmd.SilenceUsage = true, true
+		x.Check()
+		if err := cmd.Execute(); err != nil {
+			x.Failf("several-lists/rejected", "lists %v given as %s: %v", lists, source, err)
+			return
+		}
+		for _, name := range order {
+			var gs []string
+			for _, it := range *got[name] {
+				gs = append(gs, it.String())
+			}
+			if strings.Join(gs, "\x00") != strings.Join(lists[name], "\x00") {
+				x.Failf("several-lists/differ", "--%s %q (next to %v, given as %s in the order %v) arrives as %q", name, lists[name], lists, source, order, gs)
+			}
+		}
+		x.Outcome(fmt.Sprintf("%s/%d%d%d", source, len(lists["deny-domains"]), len(lists["direct-domains"]), len(lists["mitm-domains"])))
+	}})
 	s.Add(explore.Scenario{Name: "concurrent-matchers", Remote: true, MaxDev: map[string]int{"quick": 2, "thorough": 3},
 		Run: func(x *explore.X) { concurrentMatchers(t, x) }})
 	s.Main()
